@@ -11,6 +11,28 @@ fn lint_sig(l: &Lint) -> String {
 }
 
 /// A lint of the spell checker itself (other rules also use the Spelling kind, e.g. `im` -> `I'm`).
+/// The texts of the tokens the ignore list looks at besides the flagged ones (LintContext::from_lint): those that
+/// touch the two characters before the lint and those that touch characters start+2 .. start+4.
+fn context_words(text: &str, lang: Language, start: usize) -> (Vec<String>, Vec<String>) {
+    use harper_core::parsers::{Markdown, PlainEnglish};
+    let dict = harper_core::FstDictionary::curated();
+    let doc = match lang {
+        Language::Plain => harper_core::Document::new(text, &PlainEnglish, &dict),
+        Language::Markdown => harper_core::Document::new(text, &Markdown::default(), &dict),
+    };
+    let src = doc.get_source();
+    let touching = |a: usize, b: usize| -> Vec<String> {
+        doc.get_tokens()
+            .iter()
+            .filter(|t| t.span.start < b && a < t.span.end && t.span.end > t.span.start)
+            .map(|t| src[t.span.start..t.span.end.min(src.len())].iter().collect::<String>())
+            .collect()
+    };
+    let before = if start >= 2 { touching(start - 2, start) } else { Vec::new() };
+    let after = touching((start + 2).min(src.len()), (start + 4).min(src.len()));
+    (before, after)
+}
+
 fn is_spellcheck(l: &Lint) -> bool {
     let m = l.message();
     l.lint_kind() == "Spelling" && (m.starts_with("Did you mean to spell \u{201C}") || (m.starts_with("Did you mean \u{201C}") && m.ends_with("\u{201D}?")))
@@ -130,7 +152,19 @@ pub fn worker(ctx: &mut Ctx) {
             for _ in 0..ncalls {
                 rep_in.evaluations += 1;
                 let a = r.pick(&corpus.sentences).clone();
-                let mut text = match r.below(8) {
+                let mut text = match r.below(9) {
+                    8 => {
+                        // the same slip twice, told apart only by the word before it (or the word after it)
+                        let leads = ["We ate", "They got", "You saw", "She made", "Nobody found", "Who bought"];
+                        let (x, y) = (r.below(leads.len()), r.below(leads.len() - 1));
+                        let y = if y >= x { y + 1 } else { y };
+                        let (fl, tail) = *r.pick(&[("a apple", "today"), ("teh cat", "here"), ("alot", "of it"), ("an pear", "too"), ("recieve", "mail"), ("the the", "end")]);
+                        match r.below(3) {
+                            0 => format!("{} {fl} {tail}. {} {fl} {tail}.", leads[x], leads[y]),
+                            1 => format!("{} {fl} {tail}.\n\n{} {fl} {tail}.", leads[x], leads[y]),
+                            _ => format!("{} {fl} {tail}. {} {fl} right now.", leads[x], leads[x]),
+                        }
+                    }
                     7 => {
                         // one misspelling in two capitalisations, in one text or spread over two calls (whatever the
                         // linter remembers about the first must not colour the second)
@@ -216,8 +250,11 @@ pub fn worker(ctx: &mut Ctx) {
                             if after.contains(&target_sig) {
                                 rep_in.finding("C16", "ignore.still-reported", text.len(), || json!({"text": text, "ignored": target_sig}), || "the ignored lint is still returned".to_string());
                             }
+                            let t_ctx = context_words(&text, lang, lints[idx].span().start);
                             for (i, b) in before.iter().enumerate() {
-                                if !after.contains(b) && (lints[i].message() != t_msg || lints[i].get_problem_text() != t_pt) {
+                                // a lint goes with the ignored one only if the ignore list cannot tell them apart: same message, same
+                                // flagged text, same neighbouring tokens
+                                if !after.contains(b) && (lints[i].message() != t_msg || lints[i].get_problem_text() != t_pt || context_words(&text, lang, lints[i].span().start) != t_ctx) {
                                     rep_in.finding("C16", "ignore.removed-other", text.len(), || json!({"text": text, "ignored": target_sig, "also_gone": b}), || format!("ignoring one lint also removed {b}"));
                                 }
                             }
